@@ -162,7 +162,7 @@ def compare_functions(ctx, tag, case_info, name, n1, n2):
             marker_lost = True
     elif x2 and not x1:
         gone = [t for t in raises1 if t not in raises2]
-        if not gone and case_info.get("unverified"):
+        if case_info.get("unverified"):
             # an unverified (state-dependent) assertion of F1 fails when the writer re-executes the parsed test
             ctx.anomaly("after-filter-timeout:added:xfail-marker")
         else:
@@ -232,17 +232,48 @@ def compare_functions(ctx, tag, case_info, name, n1, n2):
                                 f"{tag} {name}: `{t[:100]}` of F1 does not hold when the writer re-executes the parsed test; F2 wraps it in pytest.raises(AssertionError)",
                                 {**info, "statement": t})
                 found = True
+    # (a'') a statement F1 has bare that comes back wrapped in pytest.raises: the behaviour of the re-executed test changed
+    wrapped_pairs = []
+    for t in list(lost):
+        n = node_of(t, nodes1)
+        if n is not None and not isinstance(n, ast.Assert):
+            w = next((x for x in extra if genfiles.is_raises_block(node_of(x, nodes2)) is not None and x.split(":\n", 1)[-1].strip() == t), None)
+            if w is not None:
+                extra.remove(w)
+                lost.remove(t)
+                b2 = [t if x == w else x for x in b2]
+                wrapped_pairs.append((t, w))
     # (b) root losses vs. cascade: a lost statement that reads a variable bound by an earlier lost statement is a consequence
+    def stores(t):
+        n = node_of(t, nodes1)
+        return {x.id for x in ast.walk(n) if isinstance(x, ast.Name) and isinstance(x.ctx, ast.Store) and _is_var(x.id)} if n is not None else set()
+
+    unbound_vars: set = set()
+    for t in unbound:
+        unbound_vars |= stores(t)
     lost_vars: set = set()
-    for t in unbound:  # an assert on a variable that F2 no longer binds is a consequence of the unbinding
-        lost_vars |= {x.id for x in ast.walk(node_of(t, nodes1)) if isinstance(x, ast.Name) and isinstance(x.ctx, ast.Store) and _is_var(x.id)}
-    roots, cascade = [], []
+    roots, cascade, asserts_on_unbound = [], [], []
     for t in lost:
         n = node_of(t, nodes1)
         reads = {x.id for x in ast.walk(n) if isinstance(x, ast.Name) and isinstance(x.ctx, ast.Load) and _is_var(x.id)} if n is not None else set()
-        (cascade if reads & lost_vars else roots).append(t)
-        if n is not None:
-            lost_vars |= {x.id for x in ast.walk(n) if isinstance(x, ast.Name) and isinstance(x.ctx, ast.Store) and _is_var(x.id)}
+        if reads & lost_vars:
+            cascade.append(t)
+        elif isinstance(n, ast.Assert) and reads & unbound_vars:
+            asserts_on_unbound.append(t)
+        else:
+            roots.append(t)
+        lost_vars |= stores(t)
+    # an assert on a variable F2 no longer binds: consequence when the consumer of the variable was lost first (the writer unbinds and
+    # the lifted assertion goes with it), root when the parser dropped the assert itself (then the binding became unused)
+    (cascade if roots else roots).extend(asserts_on_unbound)
+    if wrapped_pairs:
+        if roots:
+            ctx.count("statements_wrapped_in_raises_after_an_earlier_loss", len(wrapped_pairs))
+        else:
+            for t, w in wrapped_pairs:
+                ctx.witness("changed:statement->pytest.raises", f"{tag} {name}: `{t[:90]}` of F1 comes back as `{w.splitlines()[0]}` although nothing was lost before it",
+                            {**info, "statement": t})
+        found = True
     if marker_lost:
         last = [t for t in b1 if not isinstance(node_of(t, nodes1), ast.Assert)][-1:]
         if not (last and last[0] in lost):
@@ -268,7 +299,7 @@ def compare_functions(ctx, tag, case_info, name, n1, n2):
     for t in extra:
         ctx.witness(f"added:{kind(t, nodes2)}", f"{tag} {name}: `{t[:110]}` of F2 is not in F1", {**info, "statement": t})
         found = True
-    if lost or extra or unbound:
+    if lost or extra or unbound or wrapped_pairs:
         return False
     if b1 == b2:
         return not found
@@ -371,11 +402,11 @@ def check_run(ctx, r):
             ctx.witness("lost:function:not-parsed", f"{r['tag']}: {fn.name} of F1 was never handed to the deserializer", {**case_info, "function": ast.unparse(fn)[:1200]})
             continue
         if entry["size"] <= 0:
-            body_kinds = sorted({genfiles.stmt_kind(n) for n in n1["nodes"]})
             if n1["body"] == ["pass"]:
                 ctx.anomaly("f1-function-is-pass")
                 continue
-            ctx.witness("lost:function:all-statements-dropped:" + "+".join(body_kinds)[:80], f"{r['tag']}: {fn.name} of F1 yields an empty test case "
+            first_kind = genfiles.stmt_kind(n1["nodes"][0]) if n1["nodes"] else "empty"
+            ctx.witness("lost:function:all-statements-dropped:first-statement=" + first_kind, f"{r['tag']}: {fn.name} of F1 yields an empty test case "
                         f"(dispositions {entry.get('counts')}) and is skipped by the seed parser", {**case_info, "function": ast.unparse(fn)[:1200], "parse": entry})
             continue
         fn2 = f2.function(f"test_{k2}")
